@@ -55,6 +55,11 @@ impl AsymmetricKey for Ed25519Extended {
         if data.len() != ed25519::EXTENDED_KEY_LENGTH {
             return Err(SecretKeyError::SizeInvalid);
         }
+        // the scalar (first 32 bytes, little endian) must be below 2^255: the curve arithmetic
+        // requires it and computes a wrong public key (and unverifiable signatures) otherwise
+        if data[31] & 0b1000_0000 != 0 {
+            return Err(SecretKeyError::StructureInvalid);
+        }
         let mut buf = [0; ed25519::EXTENDED_KEY_LENGTH];
         buf.clone_from_slice(data);
         // TODO structure check
